@@ -41,4 +41,19 @@ func init() {
 		DesignRef: "DESIGN.md §6 C10",
 		Technique: technique,
 	})
+	register(Check{
+		ID: "C09", Title: "Basic values are copied, composites are shared", Level: "model_checking",
+		Units: []Unit{evalUnit([]string{"evaluator/common.go", "evaluator/c09.go"},
+			Harness{Fn: "ZZC09Alias", Expect: []string{"alias-ok", "witness:end"}},
+		)},
+		Assumptions: []string{
+			"scenario table: 46 alias scenarios = way the alias is made (declaration, assignment, argument, variadic argument, return, array element, map value, any wrapping, loop variable, slice, concatenation, repetition, err/errmsg read) x update (variable, element, field, del, inside callee) x observation; old and new values are unconstrained symbolic numbers",
+			"expected outputs follow from the copy-vs-share rule of docs/spec.md written next to each scenario",
+		},
+		Outside:   []string{"alias chains longer than the scenarios (three names at most)", "scenarios outside the table"},
+		LevelText: "bounded symbolic execution of evalDecl/evalAssignment/evalAssignIndexExpr/evalAssignDotExpr/evalExprList/evalMapLiteral/evalFunccall/copyOrRef/deepCopy/arrayVal.Copy,Slice/evalBinaryArrayExpr/scope.update/value.Set/globalErr/arrayRange.next on every scenario for all values, plus a heap-shape lemma on the interpreter's concrete heap (no two bindings or elements share a basic-value cell)",
+		LevelNote: "trusts the scenario expectations, the engine and cvc5",
+		DesignRef: "DESIGN.md §6 C09",
+		Technique: technique,
+	})
 }
